@@ -413,6 +413,29 @@ def run(ctx):
                               files={'tu.c': src, 'vals.c': V.companion(), 'expected.txt': '\n'.join(exp) + '\n'},
                               script='$CHIBICC -I$VERIF/rt -c -o tu.o tu.c && gcc -I$VERIF/rt -c -w vals.c -o vals.o && gcc -o tu.exe tu.o vals.o $RT && ./tu.exe > got.txt; '
                                      'if cmp -s got.txt expected.txt; then exit 0; else diff got.txt expected.txt | head -5; exit 1; fi')
+    # pointer +/- integer scales the integer operand by the element size in a 64-bit multiplication (shared generator with C04)
+    from props import C04
+    work2 = ctx.tmpdir('c01ptr')
+    for i in range(ctx.scale(2, 20)):
+        src, owners = C04.bigindex_tu(rng, 300)
+        p = os.path.join(work2, 'ps%d.c' % i)
+        open(p, 'w').write(src)
+        verdict, r = core.three_way(cc, p, work2, 'ps%d' % i)
+        if verdict in ('ref-fail', 'ambiguous'):
+            raise core.Inconclusive('pointer-scaling unit: references fail or disagree')
+        x, g = r['chibicc'], r['gcc']
+        if x['stage'] != 'run' or x['rc'] != 0:
+            ctx.violation('C01|pointer-scale|tu-%s-fail' % x['stage'], core.first_line(x['err'].decode('utf-8', 'replace')), files={'tu.c': src})
+            continue
+        lx, lg = x['out'].decode().split('\n')[:-1], g['out'].decode().split('\n')[:-1]
+        ctx.evaluations += len(lg)
+        ctx.count('observations', len(lg))
+        for ln in range(min(len(lx), len(lg), len(owners))):
+            key = owners[ln][0].replace('C04|index-scale|', 'C01|pointer-scale|')
+            ctx.saw(key)
+            if lx[ln] != lg[ln]:
+                ctx.violation(key, '%s: chibicc %s, gcc = clang %s' % (owners[ln][1], lx[ln], lg[ln]), files={'tu.c': src},
+                              script='$CHIBICC -I$VERIF/rt -c -o tu.o tu.c && gcc -o tu.exe tu.o $RT && ./tu.exe > got.txt; gcc -w -I$VERIF/rt -o ref.exe tu.c $RT && ./ref.exe > ref.txt; cmp -s got.txt ref.txt && exit 0; exit 1')
     for o in allobs:
         ctx.saw(o.key)
     ctx.count('reference_disagreements', discarded)
